@@ -61,7 +61,7 @@ fn dump_place(p: &Option<VehiclePlace>) -> Value {
 fn read_problem_cli(fmt: &str, text: &str, rounded: bool) -> Result<Problem, GenericError> {
     use std::io::Write;
     let formats = vrp_cli::extensions::solve::formats::get_formats(rounded, Arc::new(DefaultRandom::default()));
-    let (reader, _, _, _) = formats.get(fmt).ok_or_else(|| GenericError::from(format!("unknown format {fmt}")))?;
+    let (reader, _, _, _) = formats.get(fmt).ok_or_else(|| GenericError::from(format!("unknown format: {fmt}")))?;
     let path = std::env::temp_dir().join(format!(
         "vh-c13-{}-{:?}-{}.txt",
         std::process::id(),
@@ -76,6 +76,40 @@ fn read_problem_cli(fmt: &str, text: &str, rounded: bool) -> Result<Problem, Gen
     let res = file.and_then(|f| (reader.0)(f, None));
     let _ = std::fs::remove_file(&path);
     res
+}
+
+fn temp_path(tag: &str, len: usize) -> std::path::PathBuf {
+    std::env::temp_dir().join(format!("vh-c13-{}-{}-{:?}-{}.txt", tag, std::process::id(), std::thread::current().id(), len))
+}
+
+/// writes the solution the way `vrp-cli solve <fmt> ... -o file` does: through the SolutionWriter of the format registry
+fn write_solution_cli(fmt: &str, problem: &Problem, solution: Solution, rounded: bool) -> Result<String, GenericError> {
+    let formats = vrp_cli::extensions::solve::formats::get_formats(rounded, Arc::new(DefaultRandom::default()));
+    let (_, _, writer, _) = formats.get(fmt).ok_or_else(|| GenericError::from(format!("unknown format: {fmt}")))?;
+    let path = temp_path("w", solution.routes.len());
+    let res = {
+        let file = std::fs::File::create(&path).map_err(|e| GenericError::from(e.to_string()))?;
+        let out: BufWriter<Box<dyn std::io::Write>> = BufWriter::new(Box::new(file));
+        (writer.0)(problem, solution, out, None)
+    };
+    let text = std::fs::read_to_string(&path).map_err(|e| GenericError::from(e.to_string()));
+    let _ = std::fs::remove_file(&path);
+    res.and(text)
+}
+
+/// reads an initial solution the way `vrp-cli solve <fmt> ... --init-solution file` does
+fn read_init_cli(fmt: &str, text: &str, problem: Arc<Problem>, rounded: bool) -> Result<Solution, GenericError> {
+    use std::io::Write;
+    let formats = vrp_cli::extensions::solve::formats::get_formats(rounded, Arc::new(DefaultRandom::default()));
+    let (_, init_reader, _, _) = formats.get(fmt).ok_or_else(|| GenericError::from(format!("unknown format: {fmt}")))?;
+    let path = temp_path("i", text.len());
+    {
+        let mut f = std::fs::File::create(&path).map_err(|e| GenericError::from(e.to_string()))?;
+        f.write_all(text.as_bytes()).map_err(|e| GenericError::from(e.to_string()))?;
+    }
+    let file = std::fs::File::open(&path).map_err(|e| GenericError::from(e.to_string()));
+    let _ = std::fs::remove_file(&path);
+    file.and_then(|f| (init_reader.0)(f, problem))
 }
 
 fn read_problem(fmt: &str, text: &str, rounded: bool) -> Result<Problem, GenericError> {
@@ -167,7 +201,10 @@ fn build_solution(problem: &Arc<Problem>, routes: &[Vec<String>], cost: f64) -> 
         .jobs
         .all()
         .iter()
-        .filter_map(|j| j.as_single().cloned())
+        .flat_map(|j| match j {
+            Job::Single(s) => vec![s.clone()],
+            Job::Multi(m) => m.jobs.clone(),
+        })
         .filter_map(|s| s.dimens.get_job_id().cloned().map(|id| (id, s)))
         .collect();
     let mut out = vec![];
@@ -201,14 +238,63 @@ pub fn run_case(case: &Value) -> Value {
     let text = case["text"].as_str().unwrap();
     let rounded = case["rounded"].as_bool().unwrap_or(false);
     let via_cli = case["via"].as_str() == Some("cli");
+    // the name handed to the registry (normally the format itself)
+    let cli_name = case["cli_name"].as_str().unwrap_or(fmt).to_string();
+    let cli_init_name = case["cli_init_name"].as_str().unwrap_or(fmt).to_string();
     let read_problem = |fmt: &str, text: &str, rounded: bool| {
-        if via_cli { read_problem_cli(fmt, text, rounded) } else { read_problem(fmt, text, rounded) }
+        if via_cli { read_problem_cli(&cli_name, text, rounded) } else { read_problem(fmt, text, rounded) }
     };
     match op {
         "read" => match read_problem(fmt, text, rounded) {
             Ok(p) => json!({"status": "ok", "problem": dump_problem(&p)}),
+            Err(e) if e.to_string().starts_with("unknown format: ") => json!({"status": "unknown-format", "err": e.to_string()}),
             Err(e) => json!({"status": "err", "err": e.to_string()}),
         },
+        // the std text primitives the readers are built from, on single words / whole texts
+        "parse" => {
+            let words: Vec<Value> = case["words"]
+                .as_array()
+                .unwrap()
+                .iter()
+                .map(|w| {
+                    let w = w.as_str().unwrap();
+                    json!([w.parse::<i32>().ok(), w.parse::<usize>().ok().map(|v| v.to_string()),
+                           w.parse::<f64>().ok().map(|v| v.round() as i32)])
+                })
+                .collect();
+            json!({"status": "ok", "words": words})
+        }
+        "import" => {
+            // vrp-cli import registry: which format names it knows at all (no readers are handed over)
+            let names: Vec<Value> = case["names"]
+                .as_array()
+                .unwrap()
+                .iter()
+                .map(|n| {
+                    let r = vrp_cli::extensions::import::import_problem::<&[u8]>(n.as_str().unwrap(), None);
+                    json!(match r {
+                        Ok(_) => true,
+                        Err(e) => !e.to_string().starts_with("unknown format"),
+                    })
+                })
+                .collect();
+            json!({"status": "ok", "known": names})
+        }
+        "words" => {
+            // BufRead::read_line + split_whitespace, as read_line / skip_lines of text_reader.rs use them
+            use std::io::BufRead;
+            let mut reader = BufReader::new(text.as_bytes());
+            let mut buffer = String::new();
+            let mut lines = vec![];
+            loop {
+                buffer.clear();
+                match reader.read_line(&mut buffer) {
+                    Ok(n) if n > 0 => lines.push(json!(buffer.split_whitespace().collect::<Vec<_>>())),
+                    _ => break,
+                }
+            }
+            json!({"status": "ok", "lines": lines})
+        }
         "init" => {
             let problem = match read_problem(fmt, text, rounded) {
                 Ok(p) => Arc::new(p),
@@ -230,16 +316,42 @@ pub fn run_case(case: &Value) -> Value {
                         .iter()
                         .map(|r| r.as_array().unwrap().iter().map(|x| x.as_str().unwrap().to_string()).collect())
                         .collect();
-                    let cost = case["cost"].as_i64().unwrap_or(0) as f64;
-                    let solution = build_solution(&problem, &routes, cost);
-                    let mut writer = BufWriter::new(Vec::new());
-                    let r = match fmt {
-                        "solomon" => solution.write_solomon(&mut writer),
-                        "tsplib" => solution.write_tsplib(&mut writer),
-                        _ => panic!("no init reader for fmt"),
-                    };
-                    let text = String::from_utf8(writer.into_inner().unwrap()).unwrap();
-                    (text, r.err().map(|e| e.to_string()))
+                    // the cost is the double cost_num / 2^cost_shift (exact)
+                    let cost = case["cost_num"].as_i64().unwrap_or(0) as f64
+                        / (1u64 << case["cost_shift"].as_u64().unwrap_or(0)) as f64;
+                    let mut solution = build_solution(&problem, &routes, cost);
+                    // jobs listed as unassigned in the Solution (write_text_solution refuses such a solution)
+                    if let Some(ids) = case.get("mark_unassigned").and_then(|v| v.as_array()) {
+                        for id in ids {
+                            let id = id.as_str().unwrap();
+                            if let Some(job) =
+                                problem.jobs.all().iter().find(|j| j.dimens().get_job_id().map(|s| s.as_str()) == Some(id))
+                            {
+                                solution
+                                    .unassigned
+                                    .push((job.clone(), vrp_core::construction::heuristics::UnassignmentInfo::Unknown));
+                            }
+                        }
+                    }
+                    if via_cli {
+                        match write_solution_cli(fmt, &problem, solution, rounded) {
+                            Ok(t) => (t, None),
+                            Err(e) => (String::new(), Some(e.to_string())),
+                        }
+                    } else {
+                        let mut writer = BufWriter::new(Vec::new());
+                        let r = match fmt {
+                            "solomon" => solution.write_solomon(&mut writer),
+                            "tsplib" => solution.write_tsplib(&mut writer),
+                            "lilim" => {
+                                use vrp_scientific::lilim::LilimSolution;
+                                solution.write_lilim(&mut writer)
+                            }
+                            _ => panic!("no writer for fmt"),
+                        };
+                        let text = String::from_utf8(writer.into_inner().unwrap()).unwrap();
+                        (text, r.err().map(|e| e.to_string()))
+                    }
                 }
             };
             if let Some(e) = write_err {
@@ -247,10 +359,20 @@ pub fn run_case(case: &Value) -> Value {
             }
             // 2. read back
             let random: Arc<dyn Random> = Arc::new(DefaultRandom::default());
-            match read_init_solution(BufReader::new(written.as_bytes()), problem.clone(), random) {
-                Ok(s) => json!({"status": "ok", "written": written, "routes": routes_of(&s),
-                                "unassigned": s.unassigned.len(), "job_ids": job_ids,
-                                "vehicles": problem.fleet.vehicles.len()}),
+            let back = if via_cli {
+                read_init_cli(&cli_init_name, &written, problem.clone(), rounded)
+            } else {
+                read_init_solution(BufReader::new(written.as_bytes()), problem.clone(), random)
+            };
+            match back {
+                Ok(s) => {
+                    let mut un: Vec<String> =
+                        s.unassigned.iter().map(|(j, _)| j.dimens().get_job_id().cloned().unwrap_or_default()).collect();
+                    un.sort();
+                    json!({"status": "ok", "written": written, "routes": routes_of(&s),
+                           "unassigned": s.unassigned.len(), "unassigned_ids": un, "job_ids": job_ids,
+                           "vehicles": problem.fleet.vehicles.len()})
+                }
                 Err(e) => json!({"status": "read-err", "written": written, "err": e.to_string()}),
             }
         }
